@@ -135,6 +135,26 @@ func (w *World) applyTable(ds *Doc, op sim.Op, o *Obs) {
 		o.Err = t.SetCellTextDirection(a, b, document.CellTextDirection(op.Str(0)))
 	case "t.rowheight":
 		o.Err = t.SetRowHeight(a, &document.RowHeightConfig{Height: b, Rule: document.RowHeightRule(op.Str(0))})
+	case "t.layout": // a=alignment b=wrap c=position
+		cfg := &document.TableLayoutConfig{Alignment: []document.TableAlignment{document.TableAlignLeft, document.TableAlignCenter, document.TableAlignRight, document.TableAlignInside, document.TableAlignOutside}[pickIdx(a, 5)]}
+		if b != 0 {
+			cfg.TextWrap = document.TextWrapAround
+		} else {
+			cfg.TextWrap = document.TextWrapNone
+		}
+		if c != 0 {
+			cfg.Position = document.PositionFloating
+			cfg.Positioning = &document.TablePositioning{}
+		} else {
+			cfg.Position = document.PositionInline
+		}
+		o.Err = t.SetTableLayout(cfg)
+	case "t.pagebreak":
+		o.Err = t.SetTablePageBreak(&document.TablePageBreakConfig{KeepWithNext: a&1 != 0, KeepLines: a&2 != 0, PageBreakBefore: a&4 != 0, WidowControl: a&8 != 0})
+	case "t.rowheightrange":
+		o.Err = t.SetRowHeightRange(a, b, &document.RowHeightConfig{Height: c, Rule: document.RowHeightRule(op.Str(0))})
+	case "t.rmcellborders":
+		o.Err = t.RemoveCellBorders(a, b)
 	case "t.rowheader":
 		o.Err = t.SetRowAsHeader(a, b != 0)
 	case "t.headerrows":
